@@ -91,6 +91,21 @@ impl NativeEnv {
         Ok(obj)
     }
 
+    /// The driver template instantiated for `n` arguments and an explicit heap size (the `--heap-size`
+    /// route of `scc codegen`), compiled each time.
+    pub fn link_heap(&mut self, obj: &Path, nargs: usize, heap: usize) -> Result<PathBuf, String> {
+        let src = std::panic::catch_unwind(|| driver::generate_c_driver(nargs, Some(heap))).map_err(|_| "generate_c_driver panicked".to_string())?;
+        let d = self.dir.join(format!("driver{nargs}_h{heap}.o"));
+        self.cc(&self.dir.join(&src), &d)?;
+        let io = self.io_obj()?;
+        let exe = obj.with_extension(format!("h{heap}.exe"));
+        let out = Command::new("gcc").arg("-o").arg(&exe).arg(&d).arg(&io).arg(obj).output().map_err(|e| format!("gcc: {e}"))?;
+        if !out.status.success() {
+            return Err(String::from_utf8_lossy(&out.stderr).lines().take(4).collect::<Vec<_>>().join(" / "));
+        }
+        Ok(exe)
+    }
+
     /// The repository's own driver template instantiated for `n` arguments, compiled once.
     pub fn driver_obj(&mut self, n: usize) -> Result<PathBuf, String> {
         if let Some(p) = self.driver_objs.get(&n) {
